@@ -509,7 +509,11 @@ class SymInt:
     def __bool__(self) -> bool:
         return cur().branch(self.t != 0)
 
+    HASH_OK = False
+
     def __hash__(self) -> int:
+        if SymInt.HASH_OK:
+            return 7919
         raise Unsupported('hash(SymInt)')
 
     def __index__(self) -> int:
